@@ -318,6 +318,11 @@ class CalleeApply:
             c = run.choose(len(labels), tag=evname, labels=labels)
             if c > 0:
                 run.trace.append(Event(evname, None, argv, 'raise'))
+                if getattr(sp, 'raise_post', None):
+                    d_ = dict(zip(names, argv))
+                    d_['raised'] = labels[c]
+                    ok_ = call_clause(ex, cm, sp.raise_post, d_)
+                    run.assume(P.lift(ex, ok_, K.Bool) if not isinstance(ok_, bool) else ok_)
                 raise RaiseEx(ExcVal(labels[c], origin=evname, payload=run.fresh(K.U('Exc'), 'exc')))
         if sp.spec:
             res = ex.call_func(ex.module_function(cm.fn(sp.spec)), argv, {}, force_inline=True)
